@@ -128,6 +128,15 @@ class ExecExpr(ExecCore):
             return SV(VNone, Ty.TFunc('%s:%s' % (v.__module__, v.__qualname__)), v, True)
         raise Unsupported('cannot lift %r' % (type(v),))
 
+    def pattern_object(self, st, key):
+        """a compiled regular expression held in a module / class attribute: an opaque object that existed at entry"""
+        a = z3.Int('g_re_' + ''.join(ch if ch.isalnum() else '_' for ch in key))
+        t = VRef(a)
+        ty = Ty.TInst('re:Pattern')
+        st.assume(And(a >= 0, a < z3.Int('next0')))
+        st.assume(shape(st, t, ty))
+        return SV(t, ty)
+
     def shared_container(self, st, clsq, attr, v):
         """a class-level list / dict / set that some function of the package mutates: process-wide STATE.  It is an object
         that existed at entry, of unknown contents (whatever earlier calls left in it); writes to it are writes to the
@@ -149,6 +158,8 @@ class ExecExpr(ExecCore):
             return SV(VNone, Ty.TFunc(payload))
         if kind == 'module':
             return SV(VNone, Ty.TModule(payload))
+        if kind == 'object' and isinstance(payload, __import__('re').Pattern):
+            return self.pattern_object(st, '%s.%s' % (modname, name))
         if kind == 'object':
             q = '%s:%s' % (modname, name)
             if q not in GLOBAL_OBJECTS:
@@ -241,6 +252,8 @@ class ExecExpr(ExecCore):
                 v = getattr(c, attr)
                 if front.is_shared_mutable(attr, v):
                     return [(st, self.shared_container(st, ty.name, attr, v))], []
+                if isinstance(v, __import__('re').Pattern):
+                    return [(st, self.pattern_object(st, '%s.%s' % (ty.name, attr)))], []
                 if front.is_const_data(v) or isinstance(v, type) or _const_with_classes(v):
                     return [(st, self.lift_py(v, st))], []
                 kind, payload = front.classify(v)
@@ -281,6 +294,12 @@ class ExecExpr(ExecCore):
                 if isinstance(member, staticmethod):
                     f = member.__func__
                     return [(st, SV(VNone, Ty.TFunc('%s:%s' % (f.__module__, f.__qualname__))))], []
+                if isinstance(member, classmethod):
+                    f = member.__func__
+                    clsv = SV(VCls(z3.IntVal(front.cls_id(ty.cls))), Ty.TCls(ty.cls))      # (static class taken as the class)
+                    return [(st, SV(VNone, Ty.TFunc('%s:%s' % (f.__module__, f.__qualname__), recv=clsv)))], []
+                if isinstance(member, __import__('re').Pattern):
+                    return [(st, self.pattern_object(st, '%s.%s' % (front.cls_qual(owner), attr)))], []
                 if callable(member) and hasattr(member, '__qualname__'):
                     mod = getattr(member, '__module__', None) or owner.__module__
                     return [(st, SV(VNone, Ty.TFunc('%s:%s' % (mod, member.__qualname__), recv=base)))], []
